@@ -382,7 +382,9 @@ def until_eval(u, lst, cur=None, P0=None, rawlen=None):
 def pkt_src(P):
     lines = []
     opts = P.get('opts') or {}
-    if opts:
+    if P.get('shared'):
+        lines.append('    __bisturi__ = SHARED')      # one options dict OBJECT shared by every class of the module
+    elif opts:
         lines.append('    __bisturi__ = %r' % (dict(opts),))
     for fname, node in P['fields']:
         if node['k'] == 'seq' and node['until'] is not None:
@@ -397,6 +399,8 @@ def module_src(P, local=False):
     """source of a module defining P and everything it references; local=True puts the classes inside a
     function (their prototypes then cannot be pickled and bisturi falls back to deepcopy)"""
     parts = [pkt_src(q) for q in subpackets(P)]
+    if P.get('shared'):
+        parts.insert(0, 'SHARED = %r\n' % (dict(P.get('opts') or {}),))
     if not local:
         return '\n'.join(parts)
     body = '\n'.join(parts)
